@@ -316,6 +316,8 @@ def work(arg):
     p_top, n_top = both_ranges(m, name, params)
     for fn_name, fn, top in (('loading', m.loading, p_top), ('pressure', m.pressure, n_top)):
         ints = [k for k in (1, 2, 3, 5, 9, 20, 100) if k < 0.9 * top][:4]
+        if not ints and top >= 1:
+            ints = [1]          # models over relative pressure (DR, DA): 0 and 1 are the whole numbers of their range
         if not ints:
             continue
         numeric = name in ml.NUMERIC_INVERSE and fn_name != explicit
@@ -324,12 +326,27 @@ def work(arg):
             continue
         ref = numpy.array([float(numpy.asarray(r.value).reshape(-1)[0]) for r in refs])
         for kind, x, sel in (('int', ints[0], [0]), ('np.int64', numpy.int64(ints[-1]), [len(ints) - 1]), ('0-d int', numpy.array(ints[0]), [0]),
-                             ('1-d int', numpy.array(ints), list(range(len(ints)))), ('1-d int32', numpy.array(ints, dtype='int32'), list(range(len(ints))))):
+                             ('1-d int', numpy.array(ints), list(range(len(ints)))), ('1-d int32', numpy.array(ints, dtype='int32'), list(range(len(ints)))),
+                             # integer containers that hold the zero point next to other points (sel None: judged against the same container as floats)
+                             ('1-d int with 0 first', numpy.array([0] + ints), None), ('1-d int with 0 inside', numpy.array(ints[:1] + [0] + ints[1:]), None),
+                             ('1-d int16 with 0 last', numpy.array(ints + [0], dtype='int16'), None), ('1-d uint8 with 0 first', numpy.array([0] + ints, dtype='uint8'), None),
+                             ('1-d int [0, k]', numpy.array([0, ints[0]]), None)):
             o = core.call(fn, x)
             out['ev'] += 1
             same_shape_float = core.call(fn, numpy.asarray(x, dtype=float) if numpy.ndim(x) else float(x))
             if not same_shape_float.ok:
                 continue        # this container shape is not supported for floats either (judged by the shape clauses above)
+            if sel is None:
+                want0 = numpy.atleast_1d(numpy.asarray(same_shape_float.value, dtype=float)).reshape(-1)
+                got0 = numpy.atleast_1d(numpy.asarray(o.value, dtype=float)).reshape(-1) if o.ok else None
+                if numeric and name in MAY_GIVE_UP and not o.ok and core.is_pg(o.kind):
+                    out['noreturn'] += 1
+                elif got0 is None or got0.shape != want0.shape or not numpy.allclose(got0, want0, rtol=(tol_for(name, fn_name) if numeric else 1e-11), atol=0, equal_nan=True):
+                    v('integer-input', f'{fn_name}({kind} {x!r}) = {got0 if o.ok else o.brief()} but the same values as floats give {want0}', want0, got0 if o.ok else o.brief(),
+                      {'fn': fn_name, 'shape': kind.split(' with')[0].split(' [')[0] + ' holding 0'})
+                else:
+                    out['nt'] += 1
+                continue
             if not o.ok:
                 if numeric and name in MAY_GIVE_UP and core.is_pg(o.kind):
                     out['noreturn'] += 1
